@@ -775,6 +775,10 @@ func (ctx Ctx) callExpr(s *ast.CallExpr) coq.Expr {
 				msg = constant.StringVal(v)
 			}
 		}
+		if strings.ContainsRune(msg, '"') {
+			// the message is printed as a Coq string, which has no escapes
+			ctx.unsupported(s, "panic message with quotes")
+		}
 		return coq.NewCallExpr(coq.GallinaIdent("Panic"), coq.GallinaString(msg))
 	}
 	// Special case for *sync.NewCond
